@@ -13,6 +13,7 @@ import (
 	"github.com/lindb/lindb/series/metric"
 	"github.com/lindb/lindb/series/tag"
 	"github.com/lindb/lindb/sql/stmt"
+	"github.com/lindb/lindb/verif/internal/core"
 	"github.com/lindb/lindb/verif/internal/imgfs"
 	"github.com/lindb/lindb/verif/internal/seam"
 )
@@ -35,6 +36,9 @@ type flushRec struct {
 func caseCrash(res *caseResult, idx int, dir string, seed int64, tier string) {
 	r := rand.New(rand.NewSource(seed*4099 + int64(idx)*53 + 9))
 	shards := 1 + r.Intn(2)
+	if tier != "thorough" {
+		shards = 1
+	}
 	steps := 10 + r.Intn(6)
 	res.Config = fmt.Sprintf("shards=%d steps=%d", shards, steps)
 	root := filepath.Join(dir, "db")
@@ -96,6 +100,9 @@ func caseCrash(res *caseResult, idx int, dir string, seed int64, tier string) {
 		}
 	}
 	cycles := 2 + r.Intn(2)
+	if tier != "thorough" {
+		cycles = 2
+	}
 	for cyc := 0; cyc < cycles; cyc++ {
 		opIdx++
 		arrive(cyc * 10)
@@ -153,13 +160,41 @@ func caseCrash(res *caseResult, idx int, dir string, seed int64, tier string) {
 	world.Enable(false)
 	_ = d.close()
 	seam.Restore()
+	// recovery of the images runs through pass-through seams that skip fsync(2) (irrelevant for the verdicts, and
+	// every image is reopened several times)
+	seam.InstallKV(seam.Direct{}, nil)
 
 	images := world.Images()
 	res.Evals = len(images)
 	res.Counters["images"] = len(images)
-	for _, img := range images {
-		verifyImage(res, idx, img, shards, names, flushes, r.Int63())
-		_ = os.RemoveAll(img.Dir)
+	// images are independent directories: verify them in parallel, each into its own result, merged afterwards
+	seeds := make([]int64, len(images))
+	for i := range seeds {
+		seeds[i] = r.Int63()
+	}
+	parts := make([]*caseResult, len(images))
+	core.Parallel(len(images), 8, func(i int) {
+		part := &caseResult{Counters: map[string]int{}}
+		verifyImage(part, idx, images[i], shards, names, flushes, seeds[i])
+		parts[i] = part
+		_ = os.RemoveAll(images[i].Dir)
+	})
+	for _, part := range parts {
+		for k, v := range part.Counters {
+			res.Counters[k] += v
+		}
+		res.Nontrivial = append(res.Nontrivial, part.Nontrivial...)
+		for _, v := range part.Violations {
+			dup := false
+			for _, old := range res.Violations {
+				if old.Class == v.Class {
+					dup = true
+				}
+			}
+			if !dup {
+				res.Violations = append(res.Violations, v)
+			}
+		}
 	}
 	var labels []string
 	for i, img := range images {
